@@ -172,16 +172,16 @@ static void build_file(d_file* D) {
         int K = (i == (VNS > 1 ? 1 : 0));
         if (i == 0) {
             SSTR(K ? 5 : -1, "name", &e->name, "schema"); e->num_children = VNS > 1 ? S32(3, "root_children", VNS - 1) : 0;
-            if (VG == 3 && VNS > 1) symx_assume(e->num_children > 0);
+            if (VG == 3 && VNS > 1) symx_assume(e->num_children >= 0);      /* 0 and absent are the same value for carquet; negative counts are not written at all */
             if (VNS > 1) continue;
         }
         if (i > 0) SSTR(K ? 5 : -1, "name", &e->name, i % 3 == 0 ? "" : i % 3 == 1 ? "c\xff" : "col");
         e->has_type = 1; e->type = K ? SE(3, "type", 0, 7, 7) : i % 8;
-        e->type_length = OPTP(2) ? (K ? S32(3, "type_length", 12) : 3) : 0; if (K && VG == 3 && OPTP(2)) symx_assume(e->type_length > 0);
+        e->type_length = OPTP(2) ? (K ? S32(3, "type_length", 12) : 3) : 0; if (K && VG == 3 && OPTP(2)) symx_assume(e->type_length >= 0);
         e->has_rep = 1; e->rep = K ? SE(3, "rep", 0, 2, 1) : i % 3;
         e->has_conv = OPTP(6); e->conv = K ? SE(4, "conv", 0, 21, 5) : 0;
-        e->scale = OPTP(7) ? (K ? S32(4, "scale", -2) : 1) : 0; if (K && VG == 4 && OPTP(7)) symx_assume(e->scale != 0);
-        e->precision = OPTP(8) ? (K ? S32(4, "precision", 9) : 2) : 0; if (K && VG == 4 && OPTP(8)) symx_assume(e->precision != 0);
+        e->scale = OPTP(7) ? (K ? S32(4, "scale", -2) : 1) : 0;
+        e->precision = OPTP(8) ? (K ? S32(4, "precision", 9) : 2) : 0;
         e->has_field_id = OPTP(9); e->field_id = K ? S32(4, "field_id", -77) : i;
         if (OPTP(10) && K) {
             e->lkind = VG == 5 ? 1 + symx_choice(14, "logical kind") : CARQUET_LOGICAL_DECIMAL;
